@@ -18,6 +18,7 @@ RULE = ("for each corpus script (all verbs / transfer kinds), each ending {peer 
         "(script, ending, event order up to the cut) signatures; every sub-run is non-trivial (a session was cut).")
 RULE += ("  " + 'Also: reply flood whose peer never reads; slow back end with a latency grid; slow reply writer; Server.close() long after the scripts ended; unlimited data-connection wait; 2 s back-end close() with an audit of tasks and open files at the very moment close() returns.')
 RULE += ("  " + 'Also (round 7): blocks waiting behind read / per-connection limits when the session ends; the simulator no longer closes a listener whose create_server() was cancelled (CPython 3.12.1 does not).')
+RULE += ("  " + 'Also (round 8): the second life of a Server object (start, serve, close, start) under cuts and server-close; a back end whose constructor raises for the first sessions.')
 ASSUMPTIONS = [
     "in-memory network model (harness/simnet.py); a transport closed only by StreamWriter.__del__ counts as leaked",
     "quiescence bound: 5 virtual seconds after the cut without further input",
